@@ -6,14 +6,18 @@ from harness.core import cbool, clist, copt, cstr, cz
 
 ID = "C18"
 MODEL_TARGETS = ["C18/Cases.vo"]
-PROOF_TARGETS = ["C18/Gen.vo", "C18/Bridge.vo", "C18/Proofs.vo", "C18/History.vo"]
+PROOF_TARGETS = ["C18/Gen.vo", "C18/Bridge.vo", "C18/Proofs.vo", "C18/History.vo",
+                 "C18/Alphabet.vo"]
 OBLIGATION_FILES = ["C18/Bridge.v"]
 PROPS_FILE = "C18/Props.v"
 SHARD = 40
 PER_CASE_TIMEOUT = 120
 RULE = ("roundtrip: random univariate equal-length panels (1-6 instances, length 1-30, value regimes: "
         "small ints, big ints, unit floats, 1e-6..1e9 mixed magnitudes per series / per panel, negative, "
-        "exact decimals), 0-4 class labels incl. mixed case / digits / punctuation, comment absent / "
+        "exact decimals), 0-4 class labels incl. mixed case / digits / punctuation; every third panel "
+        "2-5 labels over the WHOLE label alphabet (printable ASCII without ':' and '?') built around "
+        "one special character, all 30 of them in turn (c vs c# vs c#1 vs #c ...), a few non-ASCII "
+        "(Python side only); comment absent / "
         "short / wrapping / containing tag look-alikes, equal_length + series_length headers in all "
         "four combinations, mixed-case problem names; written by the real writer, loaded by the real "
         "loader, the written lines re-parsed by the model inside Coq.  ts_lines: hand-built .ts files "
@@ -135,7 +139,28 @@ def _gen_values(rng, n, m):
     return regime, rows
 
 
-def _gen_roundtrip(rng):
+# every printable ASCII character a class label may contain (the unchanged writer + loader bring all
+# of them back, lower-cased; found empirically and proved for the model: coq/C18/Alphabet.v): all but
+# ":" (dimension separator) and "?" (missing-value marker); white space only inside (stripped outside)
+LABEL_ALPHABET = "".join(chr(c) for c in range(33, 127) if chr(c) not in ":?")
+SPECIALS = [c for c in LABEL_ALPHABET if not c.isalnum()]
+UNICODE_LABELS = ["\u00e9t\u00e9", "\u00c9T\u00c9-2", "stra\u00dfe", "\u65e5\u672c", "\u03a3x", "na\u00efve#1"]
+
+
+def _alphabet_labels(rng, ch, k):
+    """k distinct labels that differ only around the special character ch: classes that merge as soon
+    as ch (or what follows it) is taken for a delimiter, a comment marker, a tag, an operator"""
+    base = rng.choice(["c", "pr", "Ab", "x1", "7"])
+    cand = [base, base + ch, base + ch + "1", base + ch + "2", ch + base, ch, base + ch + ch,
+            base.upper() + ch + "Z", "".join(rng.choice(LABEL_ALPHABET) for _ in range(rng.randint(2, 6)))]
+    out = []
+    for lab in [cand[0], cand[1]] + rng.sample(cand[2:], len(cand) - 2):
+        if lab.lower() not in [o.lower() for o in out]:
+            out.append(lab)
+    return out[:max(2, k)]
+
+
+def _gen_roundtrip(rng, special=None):
     n = rng.choice([1, 1, 2, 2, 3, 3, 4, 5, 6])
     m = rng.choice([1, 2, 2, 3, 3, 4, 5, 6, 8, 10, 12, 16, 24, 30])
     if n * m > 60:
@@ -151,6 +176,18 @@ def _gen_roundtrip(rng):
         if pool in (["1", "2"], ["0", "1", "2", "3"], ["-1", "1"]) and rng.random() < 0.5:
             labels = [int(x) for x in labels]          # integer class labels, as np.unique gives
             class_values = [int(x) for x in class_values]
+    if special is not None:
+        # labels over the whole label alphabet, built around one special character (now and then
+        # non-ASCII labels: Python-side comparison only)
+        if special == "unicode":
+            labels = rng.sample(UNICODE_LABELS, rng.randint(2, 4))
+        else:
+            labels = _alphabet_labels(rng, special, rng.randint(2, 5))
+        n = max(n, 2)
+        while len(rows) < n:
+            rows.append(list(rows[0]))
+        class_values = [labels[i % len(labels)] for i in range(n)]
+        rng.shuffle(class_values)
     el = rng.random() < 0.4
     sl = m if (el or rng.random() < 0.25) else -1
     return {"kind": "roundtrip", "regime": regime, "values": rows, "labels": labels,
@@ -209,6 +246,13 @@ def _ts_variants():
     add("classlabel-double-space", H[:3] + ["@classLabel true  a  b", "@data"] + D)
     add("label-not-declared", H + ["@data", "1,2,3:zzz"])
     add("label-mixed-case", H[:3] + ["@classLabel true Aa B", "@data", "1,2:Aa", "3,4:B", "5,6:AA"])
+    add("label-with-hash", H[:3] + ["@classLabel true c# c", "@data", "1,2:c#", "3,4:c", "5,6:C#"])
+    add("label-hash-then-digits", H[:3] + ["@classLabel true pr#1 pr#2", "@data", "1,2:pr#1",
+                                            "3,4:pr#2"])
+    add("label-starts-with-hash", H[:3] + ["@classLabel true #a b", "@data", "1,2:#a", "3,4:b"])
+    add("label-with-percent-at-plus", H[:3] + ["@classLabel true a%b x@data +1 -1", "@data",
+                                                "1,2:a%b", "3,4:x@data", "5,6:+1", "7,8:-1"])
+    add("hash-after-value", H + ["@data", "1,2:a # note", "3,4:b#"])
     add("label-with-comma", H[:3] + ["@classLabel true a,b c", "@data", "1,2:a,b", "3,4:c"])
     add("label-with-inner-space", H + ["@data", "1,2:a b", "3,4: b "])
     add("label-missing", H + ["@data", "1,2,3"])
@@ -364,7 +408,12 @@ def _gen_histories(rng, tier):
 def gen_cases(rng, tier):
     cases = []
     for _ in range(170 if tier == "quick" else 5000):
-        cases.append(_gen_roundtrip(rng))
+        # every third round trip: labels around one special character, all of them in turn
+        sp = None
+        if _ % 3 == 0:
+            j = _ // 3
+            sp = "unicode" if j % 16 == 15 else SPECIALS[(j - j // 16) % len(SPECIALS)]
+        cases.append(_gen_roundtrip(rng, sp))
     # writer-side rejections and option corners
     cases.append({"kind": "roundtrip", "regime": "reject", "values": [[1, 2], [3, 4]], "labels": ["a"],
                   "class_values": ["a"], "name": "p", "comment": None, "equal_length": False,
@@ -1229,6 +1278,9 @@ def _ascii_ok(lines):
 def coq_case(case, out):
     k = case["kind"]
     if k == "roundtrip":
+        if not _ascii_ok([str(v) for v in (case["labels"] or [])] + [case["name"]]
+                         + (out["file"] or [])):
+            return None         # the model is on ASCII bytes; non-ASCII labels: Python oracle only
         return "CRoundtrip %s %s %s %s %s" % (
             _wopts(case, out), clist([_sl(r) for r in out["printed"]]),
             _sl([str(v) for v in case["class_values"]]), copt(out["file"], _sl),
@@ -1378,6 +1430,13 @@ def distribution(cases, results):
         if k == "roundtrip":
             d["roundtrip:regime=%s" % c["regime"]] += 1
             d["roundtrip:labels=%d" % len(c["labels"] or [])] += 1
+            labs = "".join(str(v) for v in (c["labels"] or []))
+            d["roundtrip:label-chars=%s" % ("non-ascii" if any(ord(ch) > 126 for ch in labs) else
+                                            "special" if any(not ch.isalnum() and ch != "_"
+                                                             for ch in labs) else "plain")] += 1
+            for ch in sorted(set(labs)):
+                if ch in "#%@,+-./":
+                    d["roundtrip:label-has %s" % ch] += 1
             d["roundtrip:instances=%d" % len(c["values"])] += 1
             d["roundtrip:%s" % ("comment" if c["comment"] else "no-comment")] += 1
             d["roundtrip:equal_length=%s,series_length=%s" % (
